@@ -244,9 +244,11 @@ pub fn run_ops(spec: &Spec, ops: &[&str], burn: &[u32], normalise: bool) -> Ran 
         toks
     });
     let objs_after: Vec<ObjView> = catch(|| g.objects()).unwrap_or_default();
-    let known: HashSet<u64> = raw_ids.iter().copied().collect();
-    let mut new_ids: Vec<u64> = objs_after.iter().map(|o| o.id).filter(|i| !known.contains(i)).collect();
-    new_ids.sort();
+    // every id drawn from the global counter during the ops (this thread is the only user), whether
+    // or not the object survived (remove_orphans may have dropped it again)
+    let counter_after = hooks::next_raw_id();
+    let first_new = raw_ids.iter().copied().max().map(|m| m + 1).unwrap_or(counter_after);
+    let new_ids: Vec<u64> = (first_new..counter_after).collect();
     let n = raw_ids.len() as u64;
     let mut map: HashMap<u64, u64> = HashMap::new();
     for (i, id) in raw_ids.iter().enumerate() {
@@ -425,6 +427,8 @@ fn norm_ids(n: usize) -> Vec<u64> {
     (0..n as u64).collect()
 }
 
+static KNOWN_SPACE_ASSERT: std::sync::atomic::AtomicUsize = std::sync::atomic::AtomicUsize::new(0);
+
 pub fn check_spec(s: &mut Session, group: &'static str, spec: &Spec, full: bool) {
     let n = spec.nodes.len();
     let ids = norm_ids(n);
@@ -441,7 +445,23 @@ pub fn check_spec(s: &mut Session, group: &'static str, spec: &Spec, full: bool)
     }
     let input = || format!("g.ops dump {}", spec.describe());
     if valid_adj {
-        s.oracle("pack-no-panic", !ran.trapped, input, || format!("pack_objects/serialize panicked on an acyclic graph: {}", ran.panic_msg));
+        // the panic site is part of the oracle name so that a known finding can be keyed on it
+        let site = if ran.panic_msg.contains("cycle or something?") {
+            "pack-no-panic(cycle-or-something)"
+        } else if ran.panic_msg.contains("left == right") && ran.panic_msg.contains("Space(") {
+            "pack-no-panic(try_isolating_subgraphs-space-assert)"
+        } else {
+            "pack-no-panic"
+        };
+        // the space assertion is a listed known finding: keep a few instances, count the rest, so
+        // that they cannot crowd other failures out of the (capped) failure list
+        if ran.trapped && site.contains("space-assert") {
+            s.count("known:space-assert-panics");
+            if KNOWN_SPACE_ASSERT.fetch_add(1, std::sync::atomic::Ordering::Relaxed) >= 3 {
+                return;
+            }
+        }
+        s.oracle(site, !ran.trapped, input, || format!("pack_objects/serialize panicked on an acyclic graph: {}", ran.panic_msg));
     } else {
         s.count(if ran.trapped { "adj>size:trap" } else { "adj>size:no-trap" });
     }
@@ -481,6 +501,13 @@ pub fn check_spec(s: &mut Session, group: &'static str, spec: &Spec, full: bool)
     }
     for (ops, name) in [(OPS_A, "kahn,gate,ovf"), (OPS_B, "short,gate,ovf"), (OPS_D, "basic,assign,short,gate,ovf,iso,short,ovf,iso,short,gate"), (OPS_E, "pack,ser")] {
         let with_bytes = ops.contains(&"ser");
+        // serialize after a *failed* pack panics only after patching every link before the first
+        // overflowing one; the list-based model needs O(output) per link, so keep that negative
+        // case to small graphs
+        if with_bytes && ran.pack_ok != Some(true) && (n > 16 || spec.total_size() > 400_000) {
+            s.count("skipped:pack,ser-on-big-failed-pack");
+            continue;
+        }
         let r = run_ops(spec, ops, &[], true);
         s.case(group, format!("g.ops {} {}", name, spec.render(&ids, &fresh_for(&r, n), with_bytes)), r.resp.clone());
         if r.trapped {
